@@ -101,14 +101,26 @@ func race07Main(args []string) {
 	seed, _ := strconv.ParseUint(args[1], 10, 64)
 	secs, _ := strconv.ParseFloat(args[2], 64)
 	type shared struct {
-		index be.BEIndex
-		qs    []eQuery
-		seq   []seqAnswer
+		index  be.BEIndex
+		qs     []eQuery
+		seq    []seqAnswer
+		fields []int // fields occurring in the documents
 	}
 	var sh []*shared
 	for i := range cases {
 		_, idx := buildCase(&cases[i])
 		s := &shared{index: idx, qs: cases[i].Queries}
+		seenF := map[int]bool{}
+		for _, d := range cases[i].Docs {
+			for _, cj := range d.Cons {
+				for _, e := range cj {
+					if !seenF[e.F] {
+						seenF[e.F] = true
+						s.fields = append(s.fields, e.F)
+					}
+				}
+			}
+		}
 		for j := range s.qs {
 			s.qs[j].Debug = false
 			s.seq = append(s.seq, answer(idx, &s.qs[j]))
@@ -187,6 +199,33 @@ func race07Main(args []string) {
 		}
 		mu.Unlock()
 	}
+	// failing retrievals (a value no parser supports on a known field) before and during the concurrent
+	// phase: an error path that leaves shared state (pools) inconsistent shows up as a race or a wrong answer
+	hostile := func(f int) be.Assignments { return be.Assignments{fieldName(f): struct{ X int }{1}} }
+	failRoaring := func(sc *roaringidx.IvtScanner, r *Rand) {
+		if sc == nil || len(rc.Fields) == 0 {
+			return
+		}
+		sc.Reset()
+		safeCall(func() { sc.Retrieve(hostile(rc.Fields[r.Intn(len(rc.Fields))].F)) })
+	}
+	failIndex := func(s *shared, r *Rand) {
+		if len(s.fields) == 0 {
+			return
+		}
+		safeCall(func() { s.index.Retrieve(hostile(s.fields[r.Intn(len(s.fields))])) })
+	}
+	{
+		r := &Rand{s: seed*31 + 7}
+		var sc *roaringidx.IvtScanner
+		if ridx != nil {
+			sc = roaringidx.NewScanner(ridx)
+		}
+		for k := 0; k < 20; k++ {
+			failRoaring(sc, r)
+			failIndex(sh[r.Intn(len(sh))], r)
+		}
+	}
 	deadline := time.Now().Add(time.Duration(secs * float64(time.Second)))
 	for _, G := range []int{2, 4, 16} {
 		var wg sync.WaitGroup
@@ -203,6 +242,14 @@ func race07Main(args []string) {
 				for time.Now().Before(stop) {
 					for k := 0; k < 50; k++ {
 						atomic.AddInt64(&ops, 1)
+						if r.Chance(4) {
+							if r.Bool() {
+								failRoaring(sc, r)
+							} else {
+								failIndex(sh[r.Intn(len(sh))], r)
+							}
+							continue
+						}
 						if sc != nil && r.Chance(25) {
 							i := r.Intn(len(rseq))
 							sc.Reset()
